@@ -102,7 +102,7 @@ Proof.
 Qed.
 
 Lemma missing_attr_caught_inst : forall (UT UR : table) x n,
-  user_class_ok UR UT x -> (c14_nb <=? x) || (N_NEG <=? n) = true ->
+  user_class_ok UR UT x -> (c14_nb <=? x) || ((N_NEG <=? n) && negb (is_new n)) = true ->
   attr (RT UR) x n = Err -> attr (PY UT) x n = Err /\ mcall (PY UT) x n = Err.
 Proof.
   intros UT UR x n Hx Hs Ha. unfold user_class_ok in *. rewrite <- nb_is in *.
@@ -116,7 +116,7 @@ Lemma noncallable_caught_inst : forall (UT UR : table) x,
   user_class_ok UR UT x -> lookup (RT UR) x N_CALL = None -> call (PY UT) x = Err.
 Proof.
   intros UT UR x Hx Hn. unfold user_class_ok in *. rewrite <- nb_is in *.
-  assert (Hs : (length py_rows <=? x) || (N_NEG <=? N_CALL) = true) by apply orb_true_r.
+  assert (Hs : (length py_rows <=? x) || ((N_NEG <=? N_CALL) && negb (is_new N_CALL)) = true) by apply orb_true_r.
   destruct (presence_caught_lemma py_rows rt_rows UT UR x N_CALL shape_ok_holds presence_caught_holds
               obj_complete_holds Hx Hs) as [_ [_ C]].
   apply C. exact Hn.
